@@ -314,6 +314,7 @@ func c14run(env sched.Env) *sched.Report {
 			sched.Progress(cs)
 			e := sched.RunOnce(nil, sched.Options{MaxSteps: 5000000}, c14body(cs))
 			rep.Execs++
+			sched.Progress(nil)
 			rep.Transitions += int64(e.Steps())
 			rep.Outcomes[e.Outcome]++
 			var k int
@@ -342,6 +343,7 @@ func init() {
 		for strat := 0; strat < 3; strat++ {
 			e := sched.RunOnce(nil, sched.Options{MaxSteps: 400000}, c14topologyBody(strat))
 			rep.Execs++
+			sched.Progress(nil)
 			rep.Distinct += 32
 			rep.Transitions += int64(e.Steps())
 			rep.Outcomes[e.Outcome]++
@@ -470,6 +472,7 @@ func c14strategy(env sched.Env) *sched.Report {
 				sched.Progress(cs)
 				e := sched.RunOnce(nil, sched.Options{MaxSteps: 2000000}, c14strategyBody(cs))
 				rep.Execs++
+				sched.Progress(nil)
 				rep.Transitions += int64(len(ops))
 				rep.Outcomes[e.Outcome]++
 				if e.EndWhy != "main-returned" && len(e.Failures) == 0 {
